@@ -69,6 +69,10 @@ func (s *PSlice) Add(addrs ...boson.Address) {
 		}
 
 		po := addrPo[i]
+		if e, _ := s.index(addr, po); e {
+			// the same address earlier in this batch
+			continue
+		}
 		s.peers[po] = append(s.peers[po], addr)
 	}
 }
